@@ -444,6 +444,40 @@ func (a *A) ruleExpiryDecisionAtomic() int {
 // sessionMap with the one that releases its buffer. (A free list fed only with buffers of sessions
 // that are gone is fine; one that is fed with the buffer of a session kept for late rows hands that
 // session's rows to the next session that is opened.)
+// freshSliceChain: every way v came about is a slice made in this function (make, nil, a composite literal) or such a
+// slice grown by append: its backing array is referenced by nothing that existed before.
+func freshSliceChain(v ssa.Value, seen map[ssa.Value]bool) bool {
+	if seen[v] {
+		return true // loop-carried: judged by the other edges
+	}
+	seen[v] = true
+	switch x := v.(type) {
+	case *ssa.MakeSlice:
+		return true
+	case *ssa.Const:
+		return x.Value == nil
+	case *ssa.Slice:
+		if al, ok := x.X.(*ssa.Alloc); ok && al.Comment == "slicelit" {
+			return true
+		}
+		return freshSliceChain(x.X, seen) && isZeroOrNil(x.Low)
+	case *ssa.Phi:
+		for _, e := range x.Edges {
+			if !freshSliceChain(e, seen) {
+				return false
+			}
+		}
+		return true
+	case *ssa.Call:
+		if cc, ok := isBuiltinCall(x, "append"); ok {
+			return freshSliceChain(cc.Args[0], seen)
+		}
+	}
+	return false
+}
+
+func isZeroOrNil(v ssa.Value) bool { return v == nil || isZeroConst(v) }
+
 func (a *A) ruleSessionBufferOwn() int {
 	S := a.Named("window", "session")
 	W := a.Named("window", "SessionWindow")
@@ -476,8 +510,8 @@ func (a *A) ruleSessionBufferOwn() int {
 						if t := TermOf(cc.Args[0], nil); t.Kind == "field" && t.Field == dataF && t.Base != nil && t.Base.String() == TermOf(fa.X, nil).String() {
 							continue
 						}
-						if _, isMS := cc.Args[0].(*ssa.MakeSlice); isMS {
-							continue
+						if freshSliceChain(cc.Args[0], map[ssa.Value]bool{}) {
+							continue // built element by element in a slice made here
 						}
 					}
 				}
